@@ -18,7 +18,7 @@
    sampled by the check. *)
 From Coupe Require Import Lib.Prelude Lib.SFloat Lib.Report Lib.Rayon Run.RunC06 Proofs.C06Proofs.
 From Coupe Require Proofs.C06Collect.
-From Coupe Require Properties.C11.
+From Coupe Require Properties.C11 Properties.C03.
 From Coupe Require Model.Dual Model.Metrics Model.MultiJagged Proofs.MultiJaggedProofs
   Model.Rcb Proofs.SFOrder Proofs.RcbBalance Model.SfcPart Proofs.SfcProofs Proofs.ZCurveProofs Proofs.ZCheckProofs.
 From Coq Require Import Permutation QArith.QArith Sorting.Sorted Floats.SpecFloat.
@@ -185,9 +185,19 @@ Theorem C06_rcb_fold_generic_partial :
 Proof. exact RcbF.fold_two_schedules. Qed.
 Print Assumptions C06_rcb_fold_generic_partial.
 
-(* >>> PLACE RESERVED: Theorem C06_rcb_sched_indep (whole Rcb, every two
-   schedules), to be closed by [exact] of the property theorem of C03/C04 once
-   it exists; see Proofs/C06Collect.v. <<< *)
+(* ---- Rcb / Rib, WHOLE ALGORITHM: for every two schedules (one split tree per
+   fold, per node and per loop iteration) the model of Rcb at the current
+   source variant returns the SAME result -- the same id for every point, or
+   the same error -- for exact (integer) weights and coordinates whose f32
+   images are not NaN.  Rib is the same function on the rotated points.
+   (Properties.C03.C03_rcb_sched_indep; proof by invariance of the recursion
+   under permutation of the item list, Proofs/RcbSched.v.) *)
+Theorem C06_rcb_sched_indep : forall fuel s1 s2 D k tol pts ws p0,
+  Coupe.Proofs.RcbInst.coords_ok pts ->
+  Coupe.Properties.C03.rcb_impl fuel s1 D k tol pts ws p0
+  = Coupe.Properties.C03.rcb_impl fuel s2 D k tol pts ws p0.
+Proof. exact Coupe.Properties.C03.C03_rcb_sched_indep. Qed.
+Print Assumptions C06_rcb_sched_indep.
 
 (* ---- ZCurve (C09).  PARTIAL.  The model's only unspecified choice is the
    tie order of par_sort_unstable_by_key (a sort oracle); the id writes go to
